@@ -41,6 +41,8 @@ type FeedCfg struct {
 
 var worldSerial int64
 
+var defaultMaxDocSize = rosmar.MaxDocSize
+
 var allCollNames = []string{"_default._default", "s1.c1", "s1.c2"}
 
 func dsName(s string) sgbucket.DataStoreNameImpl {
@@ -102,6 +104,7 @@ func NewWorldAt(cfg Config, dir, name string, existing bool) (*World, error) {
 		w.Cfg.Colls = []string{allCollNames[0]}
 	}
 	w.savedMaxDoc = rosmar.MaxDocSize
+	rosmar.MaxDocSize = defaultMaxDocSize // (a world that is still open may have lowered it)
 	if cfg.MaxDocSize > 0 {
 		rosmar.MaxDocSize = cfg.MaxDocSize
 	}
